@@ -318,7 +318,7 @@ func init() {
 			})
 			return shardsOfSpecs(specs)
 		},
-		ShardBudget: budget(60*time.Second, 12*time.Minute),
+		ShardBudget: budget(240*time.Second, 12*time.Minute),
 	})
 }
 
@@ -400,6 +400,6 @@ func init() {
 			}
 			return append(sh, shardsOfSketchSpecs(sks)...)
 		},
-		ShardBudget: budget(60*time.Second, 12*time.Minute),
+		ShardBudget: budget(240*time.Second, 12*time.Minute),
 	})
 }
